@@ -477,6 +477,22 @@ def render (F : FilterSem) (k : Kind) : Env → Stmt → Except Err (Env × Stri
       | .error err => .error err
       | .ok (e'', o2) => .ok (e'', o1 ++ o2)
 
+/-- `BoundTemplate.render_with_context` under `Mode.LAX`, for top-level nodes that write at most once, at their end
+    (text, output, assign): a node that raises a Liquid error — `UndefinedError` included — is skipped
+    (`Environment.error` ignores it), nothing of it reaches the output and the context is as before -/
+def renderLax (F : FilterSem) (k : Kind) : Env → List Stmt → Env × String
+  | e, [] => (e, "")
+  | e, s :: rest => match render F k e s with
+    | .error _ => renderLax F k e rest
+    | .ok (e', o) => let r := renderLax F k e' rest; (r.1, o ++ r.2)
+
+/-- the nodes for which `renderLax` is exact -/
+def Stmt.atomic : Stmt → Bool
+  | .text _ => true
+  | .output _ => true
+  | .assign _ _ => true
+  | _ => false
+
 /-! ## Eight concrete filters, written with the conversions their decorators perform -/
 
 /-- `string_filter`: `None → ""`, `str` stays, anything else `str(val)`; on an undefined value the failing
